@@ -89,7 +89,11 @@ func compileTagFilter(name, value string, numLabelUnits map[string]string, ui pl
 		value = tagValuePair[1]
 	}
 
-	if numFilter := parseTagFilterRange(value); numFilter != nil {
+	numFilter, err := parseTagFilterRange(value)
+	if err != nil {
+		return nil, fmt.Errorf("parsing %s range: %v", name, err)
+	}
+	if numFilter != nil {
 		ui.PrintErr(name, ":Interpreted '", value, "' as range, not regexp")
 		labelFilter := func(vals []int64, unit string) bool {
 			for _, val := range vals {
@@ -166,14 +170,14 @@ func compileTagFilter(name, value string, numLabelUnits map[string]string, ui pl
 // ":64kb" -- matches values <= 64kb
 // "4mb:" -- matches values >= 4mb
 // "12kb:64mb" -- matches values between 12kb and 64mb (both included).
-func parseTagFilterRange(filter string) func(int64, string) bool {
+func parseTagFilterRange(filter string) (func(int64, string) bool, error) {
 	ranges := tagFilterRangeRx.FindAllStringSubmatch(filter, 2)
 	if len(ranges) == 0 {
-		return nil // No ranges were identified
+		return nil, nil // No ranges were identified
 	}
 	v, err := strconv.ParseInt(ranges[0][1], 10, 64)
 	if err != nil {
-		panic(fmt.Errorf("failed to parse int %s: %v", ranges[0][1], err))
+		return nil, fmt.Errorf("failed to parse int %s: %v", ranges[0][1], err)
 	}
 	scaledValue, unit := measurement.Scale(v, ranges[0][2], ranges[0][2])
 	if len(ranges) == 1 {
@@ -182,34 +186,34 @@ func parseTagFilterRange(filter string) func(int64, string) bool {
 			return func(v int64, u string) bool {
 				sv, su := measurement.Scale(v, u, unit)
 				return su == unit && sv == scaledValue
-			}
+			}, nil
 		case match + ":":
 			return func(v int64, u string) bool {
 				sv, su := measurement.Scale(v, u, unit)
 				return su == unit && sv >= scaledValue
-			}
+			}, nil
 		case ":" + match:
 			return func(v int64, u string) bool {
 				sv, su := measurement.Scale(v, u, unit)
 				return su == unit && sv <= scaledValue
-			}
+			}, nil
 		}
-		return nil
+		return nil, nil
 	}
 	if filter != ranges[0][0]+":"+ranges[1][0] {
-		return nil
+		return nil, nil
 	}
 	if v, err = strconv.ParseInt(ranges[1][1], 10, 64); err != nil {
-		panic(fmt.Errorf("failed to parse int %s: %v", ranges[1][1], err))
+		return nil, fmt.Errorf("failed to parse int %s: %v", ranges[1][1], err)
 	}
 	scaledValue2, unit2 := measurement.Scale(v, ranges[1][2], unit)
 	if unit != unit2 {
-		return nil
+		return nil, nil
 	}
 	return func(v int64, u string) bool {
 		sv, su := measurement.Scale(v, u, unit)
 		return su == unit && sv >= scaledValue && sv <= scaledValue2
-	}
+	}, nil
 }
 
 func warnNoMatches(match bool, option string, ui plugin.UI) {
